@@ -23,7 +23,7 @@ REPO = os.environ.get("VERIF_REPO", "/repo")
 OUT = os.path.join(ROOT, "out")
 SPEC = os.path.join(ROOT, "spec")
 HARNESS_DIR = os.path.join(ROOT, "harness")
-HARNESS_BIN = os.path.join(OUT, "bin", "harness")
+BIN_DIR = os.path.join(OUT, "bin")
 TLA_JAR = "/opt/veriftools/tla/tla2tools.jar"
 TLA_CP = TLA_JAR + ":/opt/veriftools/tla/CommunityModules-deps.jar"
 
@@ -191,15 +191,11 @@ def run_tlc(workdir, spec_dir, module, cfg, mode="mc", workers="auto", timeout=6
 
 # --------------------------------------------------------------------------- Go harness
 
-def build_harness():
-    os.makedirs(os.path.dirname(HARNESS_BIN), exist_ok=True)
-    # keep go.sum in step with the repository under test
-    try:
-        shutil.copy(os.path.join(REPO, "go.sum"), os.path.join(HARNESS_DIR, "go.sum.repo"))
-    except Exception:
-        pass
+def build_harness(name):
+    """Build harness/cmd/<name> (with -tags verif, against /repo's working tree) into out/bin/<name>."""
+    os.makedirs(BIN_DIR, exist_ok=True)
     t0 = time.time()
-    p = subprocess.run(["go", "build", "-tags", "verif", "-o", HARNESS_BIN, "./cmd/harness"],
+    p = subprocess.run(["go", "build", "-tags", "verif", "-o", os.path.join(BIN_DIR, name), "./cmd/" + name],
                        cwd=HARNESS_DIR, env=goenv(), stdout=subprocess.PIPE, stderr=subprocess.STDOUT,
                        text=True)
     if p.returncode != 0:
@@ -207,12 +203,12 @@ def build_harness():
     return time.time() - t0
 
 
-def run_harness(args, timeout=600, stdin=None, env=None):
-    """Run the harness binary; returns (returncode, stdout, stderr)."""
+def run_harness(name, args, timeout=600, stdin=None, env=None):
+    """Run the harness binary out/bin/<name>; returns (returncode, stdout, stderr)."""
     e = goenv()
     e.update(env or {})
     try:
-        p = subprocess.run([HARNESS_BIN] + list(args), stdout=subprocess.PIPE, stderr=subprocess.PIPE,
+        p = subprocess.run([os.path.join(BIN_DIR, name)] + list(args), stdout=subprocess.PIPE, stderr=subprocess.PIPE,
                            timeout=timeout, text=True, errors="replace", input=stdin, env=e, cwd=ROOT)
     except subprocess.TimeoutExpired as ex:
         so = ex.stdout.decode("utf-8", "replace") if isinstance(ex.stdout, bytes) else (ex.stdout or "")
@@ -312,11 +308,19 @@ class Ctx:
         if zero:
             raise Inconclusive("vacuous model %s: actions never taken: %s" % (module, zero))
 
-    def validate_traces(self, spec_subdir, module, cfg, trace_file, n_traces, **kw):
-        """Run a trace specification; returns TLCResult. Accepted iff ok."""
+    def validate_traces(self, spec_subdir, module, cfg, events, n_traces, **kw):
+        """Run a trace specification on a list of events (written as trace.json, a JSON array:
+        JsonDeserialize is linear, ndJsonDeserialize is quadratic in this TLC build).
+        Returns TLCResult; accepted iff r.ok; r.reject = (index, event text) otherwise."""
         kw.setdefault("workers", 1)
         kw.setdefault("deadlock", False)
+        kw.setdefault("timeout", 600)
+        trace_file = os.path.join(self.work, "trace.json")
+        with open(trace_file, "w") as f:
+            json.dump(events, f, separators=(",", ":"))
         r = self.tlc(spec_subdir, module, cfg, extra_files=[trace_file], **kw)
+        m = re.search(r'<<"@@REJECT", (\d+), (.*)>>', r.stdout)
+        r.reject = (int(m.group(1)), m.group(2)) if m else None
         if r.timeout or (r.error and not r.violated):
             raise Inconclusive("TLC trace validation %s %s: %s" % (module, cfg, r.error[:1000]))
         if r.ok:
@@ -324,14 +328,15 @@ class Ctx:
         return r
 
     # ---- harness helpers
-    def build(self):
-        dt = build_harness()
-        log("[go] harness built in %.1fs" % dt)
+    def build(self, name=None):
+        name = name or self.pid.lower()
+        dt = build_harness(name)
+        log("[go] harness %s built in %.1fs" % (name, dt))
 
-    def harness(self, args, timeout=600, env=None, stdin=None, allow_fail=False):
+    def harness(self, args, timeout=600, env=None, stdin=None, allow_fail=False, name=None):
         e = {"VERIF_SEED": str(self.seed), "VERIF_TIER": self.tier}
         e.update(env or {})
-        rc, so, se = run_harness(args, timeout=timeout, env=e, stdin=stdin)
+        rc, so, se = run_harness(name or self.pid.lower(), args, timeout=timeout, env=e, stdin=stdin)
         if se.strip():
             with open(os.path.join(self.work, "harness.stderr"), "a") as f:
                 f.write("== %s\n%s\n" % (" ".join(args), se))
